@@ -156,6 +156,7 @@ class C12(Machine):
                                                  'worker_crash']),
                              'pool': 0, 'task': rng.randrange(4),
                              'point': 'before_run'}]
+            op['giveup'] = rng.random() < 0.4
         return op
 
     def simplify(self, case):
@@ -413,10 +414,16 @@ class C12(Machine):
                 got = self._observe(ctx, cfg, obj, op, srcs, freqs)
                 fired = any(f.get('fired') for f in ctx.pool.faults)
                 if got[0] == 'exc' and fired:
-                    # after an injected fault: old or nothing; then retry
+                    # after an injected fault: old or nothing; then retry,
+                    # or give the operation up and reset the object
                     ctx.stats.probe('op_failed_by_fault')
                     self._check_state(ctx, cfg, obj, k + '(failed)')
                     ctx.pool.new_op(())
+                    if op.get('giveup'):
+                        sim.clean('computed')
+                        ctx.stats.probe('gave_up_after_fault')
+                        ctx.event(k + '/giveup')
+                        return
                     got = self._observe(ctx, cfg, obj, op, srcs, freqs)
                 want = self._want(ctx, cfg, obj, op, srcs, freqs)
                 self._cmp(ctx, got, want, 'history_dependence', k, k,
